@@ -223,6 +223,26 @@ class Hashy(metaclass=MetaHash):
     pass
 
 
+class MetaLone(type):
+    """metaclass-level equality and hashing on a class whose instances are only ever passed ALONE (one parameter, one call,
+    never next to a value of another type): typing such a value gives no occasion to compare or hash its class"""
+    def __hash__(cls):
+        note("MetaLone.__hash__")
+        return 11
+
+    def __eq__(cls, other):
+        note("MetaLone.__eq__")
+        return cls is other
+
+
+class Lone(metaclass=MetaLone):
+    pass
+
+
+def takes_lone(x):
+    return None
+
+
 class Raiser:
     """inspection of this object raises (every attribute read, incl. __class__)"""
     def __getattribute__(self, name):
@@ -247,6 +267,14 @@ def gen_of(x):
     yield x
     yield x
     return x
+
+
+def gen_abandoned(x):
+    yield x
+    yield x
+
+
+_ABANDONED = None
 
 
 class Holder:
@@ -277,6 +305,9 @@ def named_like_a_global(x):      # a global named like this function is looked a
     return x
 
 
+LOOKUP_RAISES = False          # fault "lookup_raises": the attribute hooks met by the function lookup fail
+
+
 class CallableGA:
     """a callable object with an attribute hook (and journaling truthiness), sitting in a local of an outer frame"""
     def __call__(self):
@@ -292,6 +323,8 @@ class CallableGA:
 
     def __getattribute__(self, name):
         note(f"CallableGA.__getattribute__({name})")
+        if LOOKUP_RAISES and name in ("__code__", "__wrapped__"):
+            raise RuntimeError("attribute hook failed")       # not an AttributeError: getattr's default does not absorb it
         return object.__getattribute__(self, name)
 
 
@@ -307,6 +340,8 @@ class GlobalGA:
 
     def __getattribute__(self, name):
         note(f"GlobalGA.__getattribute__({name})")
+        if LOOKUP_RAISES and name in ("__code__", "__wrapped__"):
+            raise RuntimeError("attribute hook failed")       # not an AttributeError: getattr's default does not absorb it
         return object.__getattribute__(self, name)
 
 
@@ -341,6 +376,8 @@ def make_values(rnd):
         [LDictNoIter(c=2)], {"m": LDictNoIter(d=3)},
         [GA("in-list"), HE(3)], {"k": GA("in-dict"), "l": LList([3])}, {he_key: 1, "s": 2}, (FakeClass(), LDict(b=2)),
         {HE(4)}, collections.defaultdict(int, {"z": GA("dd")}), [LList([GA("deep")])],
+        # an EMPTY defaultdict whose factory is user code: typing it must not call the factory
+        collections.defaultdict(lambda: note("factory called") or 0), [collections.defaultdict(lambda: note("factory called (nested)") or [])],
         # hooked objects as dict KEYS (first key, and after a str key)
         {GA("key"): 1, "t": 2}, {"t": 2, FakeClass(): 1}, {GA("only-key"): GA("val")},
     ]
@@ -353,6 +390,7 @@ def workload(vals, out):
     import random as _random
     _random.seed(20261002)         # the program's own use of the global generator: tracing must not consume from it
     h = Holder()
+    out.append(("lone", takes_lone(Lone()) is None))
     for i, v in enumerate(vals):
         if i % 5 == 0:
             out.append(("rand", i, _random.random(), _random.randrange(1000)))
@@ -368,6 +406,9 @@ def workload(vals, out):
     hb = HolderB()
     out.append(("methB", hb.meth(vals[0]) is vals[0], hb.prop))
     out.append(("prop", h.prop))
+    global _ABANDONED
+    _ABANDONED = gen_abandoned(vals[0])        # started and left suspended: it never completes, so it is never logged
+    out.append(("abandoned", next(_ABANDONED) is vals[0]))
     out.append(("named", named_like_a_global(vals[0]) is vals[0]))
     out.append(("closure", outer_with_closure(vals[1]) is vals[1]))
     print("workload done", len(out))
@@ -389,6 +430,9 @@ def main():
         pass
     out = []
     rec = {"mode": mode, "fault": fault}
+    if "lookup_raises" in fault:
+        global LOOKUP_RAISES
+        LOOKUP_RAISES = True
     stdout = io.StringIO()
     real_stdout = sys.stdout
     pre = OldProfiler() if rnd.random() < 0.5 else None
@@ -428,6 +472,8 @@ def main():
 
                 def log(self, trace):
                     self.logged += 1
+                    self.names = getattr(self, "names", [])
+                    self.names.append(trace.func.__name__)
                     if "log" in fault.split("+"):
                         raise ValueError("logger.log failed")
 
@@ -436,16 +482,33 @@ def main():
                     if "flush" in fault.split("+"):
                         raise ValueError("logger.flush failed")
             logger = FaultyLogger()
+            if "stock_logger" in fault:
+                # the stock store-backed logger over a LONG run: the store is written once, when the context ends
+                from monkeytype.db.base import CallTraceStore, CallTraceStoreLogger
+
+                class RecStore(CallTraceStore):
+                    def add(self, traces):
+                        flushes["n"] += 1
+                        logger.logged = len(list(traces))
+
+                    def filter(self, module, qualname_prefix=None, limit=2000):
+                        return []
+                logger = CallTraceStoreLogger(RecStore())
             this_file = __file__
             sys.setprofile(pre)
             flush_exc = None
             try:
                 try:
-                    with trace_calls(logger, rnd.choice([0, 2]), lambda code: code.co_filename == this_file
+                    with trace_calls(logger, rnd.choice([0, 2]), lambda code: code.co_name == "bump" or code.co_filename == this_file
                                      and code.co_name in ("ident", "pair", "takes_container", "gen_of", "meth", "prop",
-                                                          "named_like_a_global", "outer_with_closure", "local_fn", "smeth")):
+                                                          "named_like_a_global", "outer_with_closure", "local_fn", "smeth", "gen_abandoned",
+                                                          "takes_lone")):
                         tracer_obj = sys.getprofile()
                         workload(vals, out)
+                        if "stock_logger" in fault:
+                            from harness import tripwire_aux
+                            for _i in range(5200):
+                                tripwire_aux.bump(_i)
                         if "hot_section" in fault:
                             # the traced block switches profiling off itself (a hot section) or installs its own profiler
                             # and does not put the tracer back: the context must still restore the previous one
@@ -461,9 +524,11 @@ def main():
                 sys.setprofile(None)
             rec["profiler_restored"] = after is pre
             rec["flushes"] = flushes["n"]
-            rec["logged"] = logger.logged
+            rec["logged"] = getattr(logger, "logged", None)
             rec["flush_exception"] = flush_exc
-            rec["residue"] = len(getattr(tracer_obj, "traces", {}))
+            rec["residue"] = len(getattr(tracer_obj, "traces", {})) - (1 if _ABANDONED is not None else 0)   # the suspended generator
+            # (whether the call that never completed was logged is C02's business -- harness/tracer_run.py leaves the context
+            #  the normal way and compares the log; it is not part of "the program computes the same results")
             rec["log_chars"] = len(logbuf.getvalue())
     finally:
         sys.stdout = real_stdout
